@@ -185,6 +185,12 @@ pub fn class_stmt(g: &mut Gen, out: &mut Vec<Stmt>) {
                     body.push(Stmt::print(call));
                 }
             }
+            // a compound assignment on a field (the object is evaluated once)
+            if !fields.is_empty() && g.rd.chance(1, 4) {
+                let f = fields[g.rd.below(fields.len())].clone();
+                g.label_pub("self_field_compound");
+                body.push(Stmt::expr(Expr::compound(Target::Prop(Expr::SelfE, f), BinOp::Add, Expr::Num(1.0))));
+            }
             // a field assignment
             if g.rd.chance(1, 3) {
                 let f = Gen::field_names()[g.rd.below(4)].to_string();
@@ -217,6 +223,31 @@ pub fn class_stmt(g: &mut Gen, out: &mut Vec<Stmt>) {
         attr_line: Cell::new(0),
     }))));
     g.declare_pub(&name, Kind::Class(ci), false);
+    // rebinding the superclass *name* afterwards must not change what `super` means
+    if let Some((sname, _)) = &superclass {
+        if g.at_global_pub() && g.rd.chance(1, 8) {
+            g.label_pub("superclass_name_rebound");
+            out.push(Stmt::expr(Expr::assign_var(sname, Expr::var("Object"))));
+        }
+    }
+    // a superclass that is not a class is a RuntimeError at the class statement
+    if g.rd.chance(1, 20) {
+        g.label_pub("non_class_superclass");
+        let bad = g.fresh_pub("Bad");
+        let e = g.fresh_pub("e");
+        out.push(Stmt::var("notclass", Some(Expr::Num(3.0))));
+        out.push(Stmt::new(StmtKind::Try(
+            vec![Stmt::new(StmtKind::Class(Rc::new(ClassDef {
+                name: bad.clone(),
+                superclass: Some("notclass".into()),
+                default_ctor: Some("new".into()),
+                methods: vec![],
+                attr_line: Cell::new(0),
+            })))],
+            Some((e.clone(), vec![Stmt::print(Expr::callv("type", vec![Expr::var(&e)]))])),
+            None,
+        )));
+    }
     // an instance right away
     let o = g.fresh_pub("o");
     let (cn, ar) = ctor.unwrap();
@@ -435,10 +466,154 @@ fn yield_outside(g: &mut Gen, out: &mut Vec<Stmt>) {
     }
 }
 
+/// Fibers calling fibers, re-entrance directly and through a cycle, fibers sharing a captured
+/// variable, and constructions that must be rejected.
+fn fiber_interplay(g: &mut Gen, out: &mut Vec<Stmt>) {
+    g.label_pub("fiber_interplay");
+    let v = |x: &str| Expr::var(x);
+    let n = |x: f64| Expr::Num(x);
+    let lam = |g: &mut Gen, params: Vec<String>, body: Vec<Stmt>| {
+        Expr::Lambda(Rc::new(FnDef {
+            name: RefCell::new(g.next_lambda_name()),
+            params,
+            body: Body::Block(body),
+            kind: FnKind::Lambda,
+        }))
+    };
+    let fnew = |l: Expr| Expr::invoke(Expr::var("Fiber"), "new", vec![l]);
+    let yld = |a: Expr| Expr::invoke(Expr::var("Fiber"), "yield", vec![a]);
+    let catch_print = |g: &mut Gen, body: Vec<Stmt>| {
+        let e = g.fresh_pub("e");
+        Stmt::new(StmtKind::Try(body, Some((e.clone(), vec![Stmt::print(Expr::callv("type", vec![Expr::var(&e)]))])), None))
+    };
+    match g.rd.below(5) {
+        0 => {
+            // producer / consumer: one fiber drives another, values flow both ways
+            let (p, c, shared) = (g.fresh_pub("fb"), g.fresh_pub("fb"), g.fresh_pub("sh"));
+            out.push(Stmt::var(&shared, Some(n(0.0))));
+            let pb = vec![
+                Stmt::expr(Expr::compound(Target::Var(shared.clone()), BinOp::Add, n(1.0))),
+                Stmt::var("a", Some(yld(Expr::bin(BinOp::Add, v("start"), n(1.0))))),
+                Stmt::expr(Expr::compound(Target::Var(shared.clone()), BinOp::Add, n(10.0))),
+                Stmt::var("b", Some(yld(Expr::VecLit(vec![v("a"), v(&shared)])))),
+                Stmt::new(StmtKind::Return(Some(Expr::VecLit(vec![v("a"), v("b"), v(&shared)])))),
+            ];
+            let pl = lam(g, vec!["start".into()], pb);
+            out.push(Stmt::var(&p, Some(fnew(pl))));
+            let cb = vec![
+                Stmt::print(Expr::invoke(v(&p), "call", vec![n(5.0)])),
+                Stmt::expr(Expr::compound(Target::Var(shared.clone()), BinOp::Add, n(100.0))),
+                Stmt::print(yld(Expr::invoke(v(&p), "call", vec![Expr::str("x")]))),
+                Stmt::print(Expr::invoke(v(&p), "call", vec![])),
+                Stmt::print(Expr::invoke(v(&p), "has_finished", vec![])),
+                Stmt::new(StmtKind::Return(Some(v(&shared)))),
+            ];
+            let cl = lam(g, vec![], cb);
+            out.push(Stmt::var(&c, Some(fnew(cl))));
+            out.push(Stmt::print(Expr::invoke(v(&c), "call", vec![])));
+            out.push(Stmt::print(v(&shared)));
+            out.push(Stmt::print(Expr::invoke(v(&c), "call", vec![Expr::str("resume")])));
+            out.push(Stmt::print(Expr::VecLit(vec![Expr::invoke(v(&c), "has_finished", vec![]), v(&shared)])));
+        }
+        1 => {
+            // re-entrance through a cycle: a calls b, b calls a (rejected, caught inside b)
+            let (a, b) = (g.fresh_pub("fb"), g.fresh_pub("fb"));
+            out.push(Stmt::var(&a, None));
+            let bb = vec![
+                catch_print(g, vec![Stmt::print(Expr::invoke(v(&a), "call", vec![]))]),
+                Stmt::print(yld(Expr::str("b yields"))),
+                Stmt::new(StmtKind::Return(Some(Expr::str("b done")))),
+            ];
+            let bl = lam(g, vec![], bb);
+            out.push(Stmt::var(&b, Some(fnew(bl))));
+            let ab = vec![
+                Stmt::print(Expr::invoke(v(&b), "call", vec![])),
+                Stmt::print(Expr::invoke(v(&b), "call", vec![Expr::str("to b")])),
+                Stmt::new(StmtKind::Return(Some(Expr::str("a done")))),
+            ];
+            let al = lam(g, vec![], ab);
+            out.push(Stmt::expr(Expr::assign_var(&a, fnew(al))));
+            out.push(Stmt::print(Expr::invoke(v(&a), "call", vec![])));
+            out.push(Stmt::print(Expr::VecLit(vec![Expr::invoke(v(&a), "has_finished", vec![]), Expr::invoke(v(&b), "has_finished", vec![])])));
+        }
+        2 => {
+            // a fiber calling itself (directly) and a finished fiber called again
+            let a = g.fresh_pub("fb");
+            out.push(Stmt::var(&a, None));
+            let ab = vec![
+                catch_print(g, vec![Stmt::print(Expr::invoke(v(&a), "call", vec![]))]),
+                Stmt::print(yld(n(1.0))),
+                catch_print(g, vec![Stmt::print(Expr::invoke(v(&a), "has_finished", vec![]))]),
+            ];
+            let al = lam(g, vec![], ab);
+            out.push(Stmt::expr(Expr::assign_var(&a, fnew(al))));
+            for k in 0..3 {
+                let args = if k == 1 { vec![Expr::str("in")] } else { vec![] };
+                let st = catch_print(g, vec![Stmt::print(Expr::invoke(v(&a), "call", args))]);
+                out.push(st);
+            }
+        }
+        3 => {
+            // constructions and calls that must be rejected, each leaving things usable
+            let f = g.fresh_pub("fb");
+            let good = lam(g, vec!["x".into()], vec![Stmt::new(StmtKind::Return(Some(Expr::bin(BinOp::Add, v("x"), n(1.0)))))]);
+            out.push(Stmt::var(&f, Some(fnew(good))));
+            let two = lam(g, vec!["a".into(), "b".into()], vec![]);
+            let bads: Vec<Expr> = vec![
+                fnew(n(1.0)),
+                fnew(Expr::var("print")),
+                fnew(two),
+                Expr::invoke(Expr::var("Fiber"), "new", vec![]),
+                Expr::invoke(v(&f), "call", vec![]),
+                Expr::invoke(v(&f), "call", vec![n(1.0), n(2.0)]),
+                Expr::invoke(Expr::var("Fiber"), "yield", vec![n(1.0), n(2.0)]),
+            ];
+            for b in bads {
+                if g.rd.chance(2, 3) {
+                    let st = catch_print(g, vec![Stmt::print(b)]);
+                    out.push(st);
+                }
+            }
+            out.push(Stmt::print(Expr::invoke(v(&f), "call", vec![n(41.0)])));
+        }
+        _ => {
+            // a fiber per loop iteration, some abandoned while suspended, each with its own locals
+            let fs = g.fresh_pub(if g.at_global_pub() { "g" } else { "v" });
+            out.push(Stmt::var(&fs, Some(Expr::VecLit(vec![]))));
+            let x = g.fresh_pub("x");
+            let body = vec![
+                Stmt::var("mine", Some(Expr::bin(BinOp::Mul, v("k"), n(10.0)))),
+                Stmt::var("got", Some(yld(v("mine")))),
+                Stmt::expr(Expr::compound(Target::Var("mine".into()), BinOp::Add, n(1.0))),
+                Stmt::new(StmtKind::Return(Some(Expr::VecLit(vec![v("k"), v("mine"), v("got")])))),
+            ];
+            let l = lam(g, vec!["k".into()], body);
+            out.push(Stmt::new(StmtKind::For(
+                x.clone(),
+                Expr::range(n(0.0), n(3.0)),
+                vec![
+                    Stmt::var("f", Some(fnew(l))),
+                    Stmt::print(Expr::invoke(v("f"), "call", vec![v(&x)])),
+                    Stmt::expr(Expr::invoke(v(&fs), "push", vec![v("f")])),
+                ],
+            )));
+            g.note_range(0, 3);
+            // resume them in reverse order, leave the middle one suspended
+            out.push(Stmt::print(Expr::invoke(Expr::index(v(&fs), n(2.0)), "call", vec![Expr::str("two")])));
+            out.push(Stmt::print(Expr::invoke(Expr::index(v(&fs), n(0.0)), "call", vec![])));
+            out.push(Stmt::print(Expr::invoke(Expr::index(v(&fs), n(1.0)), "has_finished", vec![])));
+        }
+    }
+}
+
 /// A fiber with a generated body and a driver sequence of calls.
 pub fn fiber_stmts(g: &mut Gen, out: &mut Vec<Stmt>) {
     if g.rd.chance(1, 6) {
         yield_outside(g, out);
+        return;
+    }
+    if g.rd.chance(1, 4) {
+        fiber_interplay(g, out);
         return;
     }
     g.label_pub("fiber");
